@@ -2,6 +2,8 @@ import Driver.Proto
 import Gotree.Spec.C14
 import Gotree.Model.C14Go
 import Gotree.Model.C14Cli
+import Gotree.Model.C14Bag
+import Gotree.Model.C14CliThr
 
 namespace Gotree.Driver.C14
 open Gotree Gotree.Driver Gotree.C14
@@ -303,15 +305,17 @@ def handleBase (op : String) (f : List String) : Verdict :=
     match unescape lflag, parseInTrees dumps, exits.toInt?, unescape text with
     | some lflag, some input, some exit, some text =>
       let lf : Option String := if lflag == "omit" then none else some (String.ofList (lflag.toList.drop 2))
-      let model := Cli.cutCmd lf input
+      let model := Cli.cutCmdThr lf input   -- = Cli.cutCmd on the decimal spellings; also reads inf / infinity / nan
       let trees := (inTrees input).filterMap Cli.InTree.tree?
       let uniq := trees.all fun t => t.tipNames.eraseDups.length == t.tipNames.length
       let allGood := input.toBool && trees.length == (inTrees input).length
-      let thr : Option Rat := match lf with | none => some (1/2) | some s => Cli.parseDec s
+      let thr : Option Cli.Thr := match lf with | none => some (.fin (1/2)) | some s => Cli.parseThr s
+      let unmodelled := match lf with | some s => Cli.unmodelledSpelling s | none => false
       let tags := ["cli", "out-" ++ outmode, "exit-" ++ exits] ++ tagIf lf.isNone "l-omitted" ++ tagIf thr.isNone "l-invalid" ++
         tagIf (!input.toBool) "no-input-file" ++ tagIf (!allGood && input.toBool) "bad-tree" ++ tagIf (trees.length ≥ 2) "several-trees" ++
         tagIf (exit == 0 && (lines text).length ≥ 2) "nontrivial" ++ tagIf (!uniq) "dupnames" ++
-        tagIf (model.written outmode == text) "fid-text-exact"
+        tagIf (model.written outmode == text) "fid-text-exact" ++
+        tagIf (thr == some .pinf || thr == some .ninf) "l-inf" ++ tagIf (thr == some .nan) "l-nan" ++ tagIf unmodelled "l-unmodelled"
       -- oracle: the printed groups of each tree id are the components (Spec), sizes are right
       let oracleOK : Bool :=
         match thr with
@@ -325,8 +329,10 @@ def handleBase (op : String) (f : List String) : Verdict :=
           let recs := if allGood then recs0 else recs0.filter fun r => r.length == 3 && (r.headD "").toNat?.isSome
           recs.all (fun r => r.length == 3 && (r.getD 1 "").toNat? == some ((r.getD 2 "").splitOn ",").length) &&
           (trees.zipIdx.all fun ti =>
-            cutSpecOK thr ti.1 ((recs.filter fun r => r.headD "" == toString ti.2).map fun r => (r.getD 2 "").splitOn ","))
+            -- NaN: every comparison is false, nothing documents what the groups should be: sizes and success only
+            thr == .nan || cutSpecOK (thr.forTree ti.1) ti.1 ((recs.filter fun r => r.headD "" == toString ti.2).map fun r => (r.getD 2 "").splitOn ","))
       if exit == 2 then ⟨.oracle, tags, "the command panicked"⟩
+      else if unmodelled then ⟨.pass, "tie-skipped-unmodelled-spelling" :: tags, ""⟩   -- hexadecimal float / digit separators
       else if !oracleOK then ⟨.oracle, tags, "printed groups are not the documented components / the command failed on valid input"⟩
       else if model.exit != exit.toNat || exit < 0 then ⟨.tie, tags, s!"model exit {model.exit} ({model.msg})"⟩
       else if sortStrings (lines (model.written outmode)) != sortStrings (lines text) then ⟨.tie, tags, "model text " ++ escape (model.written outmode)⟩
@@ -355,6 +361,48 @@ def handle (op : String) (f : List String) : Verdict :=
       let v := handleBase "avg" [ms, dumps, res, itips, imat]
       let consecutive := ids == (List.range ids.length).map Int.ofNat
       { v with tags := "ids-given" :: tagIf (!consecutive) "ids-not-0..n-1" ++ tagIf (ids.all (· == 0) && ids.length ≥ 2) "ids-all-zero" ++ v.tags }
+  | "seq", [dump0, ms1, thr1, ms2, thr2, dumpA, tips1, mat1, res1, bags1, tips2, mat2, res2, bags2, tipIds, edgeIds] =>
+    -- ONE in-memory tree measured four times: every measurement is judged on the tree as built, and the
+    -- tree re-read after the last one must be the tree as built (branch ids apart)
+    match T.undump dump0, parseNatList tipIds, parseNatList edgeIds with
+    | some t, some tids, some eids =>
+      let g := Go.G.ofT t
+      let vs := [handleBase "matrix" [ms1, dump0, tips1, mat1], handleBase "cut" [thr1, dump0, res1, bags1],
+                 handleBase "matrix" [ms2, dump0, tips2, mat2], handleBase "cut" [thr2, dump0, res2, bags2]]
+      let unchanged := match T.undump dumpA with
+        | some a => (Go.stripIds a).beq (Go.stripIds t)
+        | none => false
+      let uniq := t.tipNames.eraseDups.length == t.tipNames.length
+      let tags := ["seq"] ++ tagIf unchanged "tree-unchanged" ++
+        tagIf (tids == Go.tipIdsAfterMatrix g) "fid-tipids-exact" ++ tagIf (eids == Go.edgeIdsAfterCut g) "fid-edgeids-exact" ++
+        tagIf (ms1 != ms2) "seq-two-metrics" ++ (vs.flatMap (·.tags)).eraseDups
+      if !unchanged then ⟨.oracle, tags, "a measurement changed the tree: after " ++ dumpA⟩
+      else match vs.find? (fun v => v.status != .pass) with
+        | some v => { v with tags := tags, detail := "in a sequence of measurements on one tree: " ++ v.detail }
+        | none =>
+          if uniq && tids != Go.tipIdsAfterMatrix g then ⟨.tie, tags, "node ids left by ToDistanceMatrix differ from SetId(rank)"⟩
+          else if eids != Go.edgeIdsAfterCut g then ⟨.tie, tags, "branch ids left by CutEdgesMaxLength differ from SetId(i)"⟩
+          else ⟨.pass, tags, ""⟩
+    | _, _, _ => bad "C14.seq fields"
+  | "tipbag", [dump, script, results] =>
+    match T.undump dump, (parseStrList script).bind Go.parseBagOps, parseStrLists results with
+    | some t, some ops, some res =>
+      let g := Go.G.ofT t
+      let model := Go.bagRun g ops []
+      let cls := fun (r : List String) => if r.head? == some "err" then ["err"] else r
+      let nAdd := ops.filter fun o => match o with | .add _ => true | _ => false
+      let tags := ["tipbag"] ++ tagIf (res.any fun r => r.length ≥ 2 && r.head? != some "err") "nontrivial" ++
+        tagIf (ops.any fun o => match o with | .add none => true | _ => false) "bag-nil" ++
+        tagIf (ops.any fun o => match o with | .clear => true | _ => false) "bag-clear" ++
+        tagIf (res.any fun r => r == ["err", "Internal node given to TipBag.AddTip"]) "bag-internal" ++
+        tagIf (res.any fun r => r.head? == some "err" && (r.getD 1 "").startsWith "TipBag.AddTip: TipBag already") "bag-other-tip-same-name" ++
+        tagIf (nAdd.length != (nAdd.map fun o => match o with | .add (some n) => n | _ => 0).eraseDups.length) "bag-same-tip-twice" ++
+        tagIf (model == res) "fid-errtext-exact"
+      if res.any (fun r => r.head? == some "panic") then ⟨.oracle, tags, "TipBag panicked"⟩
+      else if !(Go.bagSpecOK g ops res []) then ⟨.oracle, tags, "TipBag results are not what tipbags.go documents"⟩
+      else if model.map cls != res.map cls then ⟨.tie, tags, "model results " ++ showStrLists model⟩
+      else ⟨.pass, tags, ""⟩
+    | _, _, _ => bad "C14.tipbag fields"
   | _, _ => handleBase op f
 
 end Gotree.Driver.C14
